@@ -16,6 +16,12 @@
 #ifndef H_MODE
 #define H_MODE 0
 #endif
+#ifndef H_CUR
+#define H_CUR {0, 2, 1, 1, 2}   /* ranking metric (memory.current) per node */
+#endif
+#ifndef H_XA
+#define H_XA {0, 0, 0, 0, 0}    /* kill-preference xattr bits per node (world.h) */
+#endif
 #define NN 5
 enum { CFG_FLAGS = 0 /* [0] recursive [1] dry [2] kernelkill [3] reap [4] always_continue [5] plugin delay+1 (0 none) [6] wet/dry pass */,
        CFG_NODE = 1 /* + n : [0] exists [1] populated [2] oom_group [3] xattrs [4] metric [5] npids [6] pids packed (10 bits each) [7] pids_current */,
